@@ -132,7 +132,7 @@ func TestC17Shipped(t *testing.T) {
 		}
 	}
 	// values pass between codecs of two dialects unchanged
-	evid.Check(t, rec, evid.N(3000, 20000), func(t *rapid.T) {
+	evid.Check(t, rec, evid.N(8000, 40000), func(t *rapid.T) {
 		d := &Shipped[rapid.IntRange(0, len(Shipped)-1).Draw(t, "dialect")]
 		var cands []struct {
 			src  *DialectReg
@@ -315,7 +315,7 @@ func TestC17Generated(t *testing.T) {
 	rec := evid.New(t, "C17", "generated dialects: random subsets of shipped and user message types with injected faults - a duplicate id at a random position, or a malformed struct of every documented class (name prefix, enum not uint64, unsupported/non-enum mavenum type, unsupported Go field type, non-numeric mavlen) plus oversize (>255 bytes, array/string longer than 255) and unexported fields; Initialize must return an error (never nil followed by a panic at first Read/Write); fault-free dialects must initialize and serve every id; non-trivial = fault injected after >= 1 good message; distinct by hash of the id/type list")
 	rec.Require("duplicate-id", "malformed-struct", "fault-free", "oversize-or-unexported")
 	tys := types(t)
-	evid.Check(t, rec, evid.N(4000, 30000), func(t *rapid.T) {
+	evid.Check(t, rec, evid.N(20000, 80000), func(t *rapid.T) {
 		n := rapid.IntRange(0, 12).Draw(t, "n")
 		var msgs []message.Message
 		used := map[uint32]bool{}
